@@ -29,22 +29,23 @@ Definition add_node (G : sgraph) (st : astate) (sn : nat) (inst : option nat) (t
   ({| a_nodes := a_nodes st ++ [{| g_sn := sn; g_inst := match inst with Some r => r | None => List.length (a_nodes st) end; g_T := if tr then sn_T s else []; g_E := if te then sn_E s else []; g_S := if sc then sn_S s else [] |}];
       a_edges := a_edges st; a_mw := bump_mw (a_mw st) (sn_mass s); a_draws := a_draws st |}, List.length (a_nodes st)).
 
-(* nx.dfs_tree preorder over the static adjacency *)
-Fixpoint dfs (fuel : nat) (G : sgraph) (stack : list (list nat)) (seen order : list nat) : list nat :=
+(* nx.dfs_tree preorder over the static adjacency; [order] = the visited nodes, newest first *)
+Fixpoint dfs (fuel : nat) (G : sgraph) (stack : list (list nat)) (order : list nat) : list nat :=
   match fuel with
   | O => rev order
   | S f =>
       match stack with
       | [] => rev order
-      | [] :: rest => dfs f G rest seen order
+      | [] :: rest => dfs f G rest order
       | (m :: ms) :: rest =>
-          if existsb (Nat.eqb m) seen then dfs f G (ms :: rest) seen order
-          else dfs f G (sn_adj (snode_at G m) :: ms :: rest) (m :: seen) (m :: order)
+          if existsb (Nat.eqb m) order then dfs f G (ms :: rest) order
+          else dfs f G (sn_adj (snode_at G m) :: ms :: rest) (m :: order)
       end
   end.
+Definition adj_weight (G : sgraph) (u : nat) : nat := S (List.length (sn_adj (snode_at G u))).
 Definition dfs_order (G : sgraph) (src : nat) : list nat :=
-  let total := fold_right (fun s n => S (List.length (sn_adj s) + n)) 0 (sg_nodes G) in
-  dfs (S (2 * total + 2)) G [[src]] [] [].
+  let total := fold_right (fun u a => adj_weight G u + a) 0 (seq 0 (List.length (sg_nodes G))) in
+  dfs (S (S (S total))) G [[src]] [].
 
 Fixpoint assoc (k : nat) (m : list (nat * nat)) : option nat :=
   match m with [] => None | (a, b) :: r => if Nat.eqb a k then Some b else assoc k r end.
